@@ -312,6 +312,8 @@ def _child(tasks, handlers, cpu, wfd, listing=False):
             except MemoryError:
                 o = ("exception", "MemoryError", [], 0, 0.0, None)
                 dirty = True
+            if not listing:
+                o = (o[0], o[1], "".join(x[0] for x in o[2]), o[3])       # severities as a string of w/e/c
             res.append(o)
             if o[0] in ("hang", "exception"):
                 dirty = dirty or o[0] == "hang"
@@ -535,14 +537,18 @@ def shape_tags(text, outcome, exc):
 # ------------------------------------------------------------------------------------------------
 # confirmation and minimisation of bad runs (each test in a process of its own)
 # ------------------------------------------------------------------------------------------------
+def sev_names(sevs):
+    return [{"w": "warning", "e": "error", "c": "critical"}.get(x, x) for x in sevs]
+
+
 def is_good(o):
-    errs = any(sv in ("error", "critical") for sv in o[2])
+    errs = any(sv in ("error", "critical", "e", "c") for sv in o[2])
     return (o[0] == "ok" and not errs) or (o[0] == "error" and errs)
 
 
 def signature(text, o):
     """what kind of bad run this is: outcome class, exception type and place (without line number)"""
-    errs = any(sv in ("error", "critical") for sv in o[2])
+    errs = any(sv in ("error", "critical", "e", "c") for sv in o[2])
     if o[0] == "exception":
         e = o[1] or ""
         name = e.split(":")[0].split(" ")[0]
